@@ -1,7 +1,9 @@
 (* Props/C14.v — property C14: in a long-lived session the answer of a rebuild is the answer of a fresh process for the
    current file contents, whatever history of updates (valid, unresolvable, not parsing) and rebuilds led there.
    Statements only.  The compiler proper is a parameter of the session model (Model/Session.v): parse = parse_and_bind,
-   extract = beff_core::extract as a function of the file manager's answers (hypothesis extract_ext, trusted base). *)
+   extract = beff_core::extract as a function of the file manager's answers (hypothesis extract_ext, trusted base).
+   Scope: histories over a fixed set of files (parse is a function of file name and text); a module created during the
+   session is outside the model and is a listed finding (see Model/Session.v). *)
 From Beff Require Import Model.Session Proofs.C14.
 
 Theorem C14_every_rebuild_answers_like_a_fresh_process :
